@@ -97,11 +97,19 @@ func vReadListing(text string, legacy bool, M Address) (code []Instruction, star
 
 func VerifHarness_C16_listing() {
 	M := Address(vParam("M"))
+	// legacy: 0 ICWS'94, 1 ICWS'88, 2 the NOP94 mode of the small-core presets
+	// (listed like '94). The simulator is built through the public
+	// constructor so that the check does not depend on how it stores the mode.
 	legacy := vParam("legacy") == 1
 	L := vParam("len")
 	opIdx := vParam("op")
-	s := vMkSim(M, M, M, 2, 100)
-	s.legacy = legacy
+	mode := []SimulatorMode{ICWS94, ICWS88, NOP94}[vParam("legacy")]
+	rs, err := NewReportingSimulator(SimulatorConfig{Mode: mode, CoreSize: M, Processes: 2, Cycles: 100, ReadLimit: M, WriteLimit: M, Length: Address(L), Distance: 0})
+	vAssert("simulator-created", err == nil)
+	if err != nil {
+		return
+	}
+	s := rs.(*reportSim)
 	code := make([]Instruction, L)
 	for i := 0; i < L; i++ {
 		var ins Instruction
